@@ -186,7 +186,7 @@ fn huge_shapes(o: &Opts, fam: usize) -> Vec<(usize, usize)> {
     if o.mini {
         vec![crate::util::huge(o.seed as usize + fam)]
     } else {
-        (0..4).map(crate::util::huge).collect()
+        (0..crate::util::NHUGE).map(crate::util::huge).collect()
     }
 }
 fn big_unit_wh(rng: &mut Rng, lo: f32, hi: f32, w: usize, h: usize) -> (usize, usize, Vec<[f32; 3]>, Vec<usize>) {
@@ -454,7 +454,7 @@ pub fn gen_c06(sh: &mut Shards, o: &Opts) -> serde_json::Value {
         }
     }
     for (k, &c) in [9u8, 4, 10, 12, 22].iter().enumerate() {
-        for (hw, hh) in huge_shapes(o, 2 + k).into_iter().take(if o.thorough { 4 } else if k < 2 { 2 } else { 0 }).skip(0) {
+        for (hw, hh) in huge_shapes(o, 2 + k).into_iter().rev().take(if o.thorough { 5 } else if k < 2 { 2 } else { 0 }) {
             let mut rng = Rng::new(o.seed, 0x0606_b170 + u64::from(c));
             let (w, h, big, mut idx) = big_unit_wh(&mut rng, -0.5, 2.0, hw, hh);
             let a = prim_to709(c, &big, w, h);
